@@ -5,7 +5,11 @@ import GqlModel.Validate.Local
 import GqlModel.Validate.Graph
 import GqlModel.Validate.Overlap
 import GqlModel.Validate.TypeInfo
+import GqlModel.Validate.All
+import GqlModel.Validate.Side
 import GqlModel.TypeInfoStacks
+import GqlModel.TypeInfoBridge
+import Generated.Tables
 /-! Driver for C02 (validation rules).
 
 `{"schema":<gq.SchemaDesc>, "doc":<astjson Document>}` →
@@ -21,7 +25,12 @@ import GqlModel.TypeInfoStacks
   `"argsUnique"` / `"executable"`: the premises of `typeinfo_eq_context` evaluated on this case;
   with `"shape":{"enter":b,"leave":b,"kindFuncs":{kind:[Kind?,Enter?,Leave?]},"enterKinds":[…],"leaveKinds":[…]}` (the
   wrapped visitor's `VisitorOptions`: which callbacks exist) also `"mevents"`: `[slot, row…]` for every callback that
-  fires (slots K KE KL E L EM LM), M run through `visitO` with that option set and the skip list. -/
+  fires (slots K KE KL E L EM LM), M with that option set and the skip list — since Props/C14Bridge computed by the
+  small-step MACHINE of `visitor.Visit` (`Visitor.runN`, fuel `fuelFor`) on the abstract tree `toNode K d` with the
+  TypeInfo-wrapping visitor `withTypeInfo`; `"machineDone"`: the machine ended `done` with `TI.empty`; `"machineEqWalk"`:
+  its events equal those of the structural walk `visitO` (theorem `machine_withTypeInfo_eq_visitO`);
+  `"tonode"`: the abstract tree `toNode K d` as `[id, [[key,0] | [key,1,node] | [key,2,[node…]] …]]`, `"kinds"`: kind per id
+  (compared with the tree harness/cmd/c14-style reflection builds from the real AST along the real QueryDocumentKeys). -/
 open Lean GqlModel GqlModel.Validate
 
 namespace Driver.C02
@@ -32,7 +41,7 @@ def encErrs (es : List VErr) : Json := Json.arr (es.map encErr).toArray
 
 /-- all registered rules: (name, M, S) — the local rules (c02a), the graph rules and the overlap rule (c02b) -/
 def registry : List (String × RuleFn × RuleFn) :=
-  let ms := localRules ++ graphRules ++ overlapRules
+  let ms := specifiedRuleFns   -- the functions `validate` / `all_rules_iff` are about, in SpecifiedRules order
   let ss := localRulesS ++ graphRulesS ++ overlapRulesS
   ms.filterMap (fun (nm, m) => (ss.lookup nm).map (fun sp => (nm, m, sp)))
 
@@ -94,6 +103,14 @@ def decShape (pol : TIRec → Bool) (sh : Json) : TypeInfoStacks.Opts (List (Str
   TypeInfoStacks.loggerOpts pol (decBool sh "enter", decBool sh "leave") (fun k => kfs.lookup k)
     (fun k => em.contains k) (fun k => lm.contains k)
 
+partial def encNode : GqlModel.Visitor.Node → Json
+  | .mk id slots => Json.arr #[Json.num id, Json.arr (slots.map encSlot).toArray]
+where
+  encSlot : GqlModel.Visitor.Slot → Json
+    | .absent k => Json.arr #[Json.str k, Json.num 0]
+    | .one k n => Json.arr #[Json.str k, Json.num 1, encNode n]
+    | .many k n ns => Json.arr #[Json.str k, Json.num 2, Json.arr ((n :: ns).map encNode).toArray]
+
 def handle (j : Json) : Except String Json := do
   match j.getObjVal? "introspection" with
   | .ok (.bool true) => return encIntrospection
@@ -105,15 +122,32 @@ def handle (j : Json) : Except String Json := do
     let skips := decSkips j
     let pol : TIRec → Bool := fun r => skips.contains (r.kind, r.loc.start)
     let rows (p : TIRec → Bool) : Json := Json.arr (((TypeInfoStacks.mRecords s p d).map TypeInfoStacks.row).map encRow).toArray
-    return Json.mkObj [("recs", Json.arr ((tiRecords s d).map encTIRec).toArray),
-      ("mrecs", rows TypeInfoStacks.noSkip), ("mrecsSkip", if skips.isEmpty then Json.null else rows pol),
+    return Json.mkObj ([("recs", Json.arr ((tiRecords s d).map encTIRec).toArray),
+      ("mrecs", rows TypeInfoStacks.noSkip),
+      ("mrecsSkip", if skips.isEmpty || !(decBool j "wantSkipRecs") then Json.null else rows pol),
       ("argsUnique", TypeInfoStacks.argsUniqueB s), ("executable", TypeInfoStacks.isExecDoc d),
-      ("mevents", match j.getObjVal? "shape" with
-        | .ok sh => Json.arr ((TypeInfoStacks.mEvents s (decShape pol sh) d).map (fun e =>
-            match encRow (TypeInfoStacks.row e.2) with
+      ("tonode", encNode (TypeInfoStacks.toNode Generated.queryDocumentKeys d)),
+      ("kinds", Json.arr (((TypeInfoStacks.docK Generated.queryDocumentKeys d).labels.map (fun l => Json.str l.kind))).toArray)] ++
+      (match j.getObjVal? "shape" with
+        | .ok sh =>
+          let o := decShape pol sh
+          let K := Generated.queryDocumentKeys
+          let root := TypeInfoStacks.toNode K d
+          let labels := (TypeInfoStacks.docK K d).labels      -- `docLab K d` = `labOf labels`, computed once
+          let r := GqlModel.Visitor.runN (TypeInfoStacks.withTypeInfo (TypeInfoStacks.M s) (TypeInfoStacks.labOf labels) o)
+            (GqlModel.Visitor.fuelFor root) (GqlModel.Visitor.init root) (TypeInfoStacks.TI.empty, [])
+          let rowsOf (es : List (String × TIRec)) : List (String × TypeInfoStacks.Row) := es.map (fun e => (e.1, TypeInfoStacks.row e.2))
+          let mrows := rowsOf r.2.2
+          let encEvs (es : List (String × TypeInfoStacks.Row)) : Json := Json.arr (es.map (fun e =>
+            match encRow e.2 with
             | .arr xs => Json.arr (#[Json.str e.1] ++ xs)
             | x => x)).toArray
-        | _ => Json.null)]
+          let done := match r.1 with | .done => true | _ => false
+          let emptyTI := r.2.1.typeStack.isEmpty && r.2.1.parentTypeStack.isEmpty && r.2.1.inputTypeStack.isEmpty &&
+            r.2.1.fieldDefStack.isEmpty && r.2.1.directive.isNone && !r.2.1.inDirective && r.2.1.argument.isNone
+          [("mevents", encEvs mrows), ("machineDone", done && emptyTI),
+           ("machineEqWalk", decide (mrows = rowsOf (TypeInfoStacks.mEvents s o d)))]
+        | _ => [("mevents", Json.null)]))
   | _ => pure ()
   let rules := registry.map (fun (nm, m, sp) =>
     let es := sp s d
@@ -121,6 +155,10 @@ def handle (j : Json) : Except String Json := do
     (nm, Json.mkObj [("violated", !es.isEmpty), ("locs", Json.arr ((es.flatMap (·.locs)).map encLoc).toArray),
       ("S", encErrs es), ("M", encErrs em), ("Mviolated", !em.isEmpty)]))
   return Json.mkObj [("rules", Json.mkObj rules), ("uniqueFragNames", Graph.uniqueFragNames d), ("uniqueArgNames", Overlap.uniqueArgNames d),
+    ("validate", encErrs (validate s d)),
+    ("side", Json.mkObj [("schemaInputsOk", schemaInputsOkB s), ("abstractInhabited", abstractInhabitedB s),
+                         ("sideB", Overlap.cohB s d (Overlap.envM s d) && Overlap.argsFaithfulB s d (Overlap.envM s d)
+                                     && Overlap.apartB d (Graph.fragDefs d))]),
     ("typeMap", Json.arr (((s.types.map (·.name)) ++ introspectionTypes.map (·.name)).filter s.known |>.map Json.str).toArray)]
 
 end Driver.C02
